@@ -292,6 +292,35 @@ def gen_ra_script(rng, n):
     return ["S", "ra", "MASK"] + [("g%d" if rng.random() < 0.45 else "a%d") % rng.randrange(8) for _ in range(n)]
 
 
+def gen_str_script(rng, n):
+    ops = []
+    for _ in range(n):
+        c = rng.random()
+        ln = rng.choice([0, 1, 5, 29, 30, 31, 40, 97, 128, 200, 511, 600, 1500])
+        data = bytes(rng.randrange(33, 127) for _ in range(ln)).hex()
+        if c < 0.35: ops.append("a" + data)
+        elif c < 0.50: ops.append("s" + data)
+        elif c < 0.65: ops.append("c%d" % rng.choice([0, 1, 7, 31, 100, 130, 513, 3000]))
+        elif c < 0.75: ops.append("C%d" % rng.choice([0, 3, 30, 31, 127, 128, 129, 700]))
+        elif c < 0.82: ops.append("x")
+        elif c < 0.88: ops.append("r")
+        else: ops.append("t%d" % rng.choice([0, 2, 30, 31, 100, 5000]))
+    return ["S", "str", "MASK"] + ops
+
+
+def gen_jit_script(rng, n, dual):
+    ops, live = [], []
+    nspans = 0
+    for _ in range(n):
+        if live and rng.random() < 0.35:
+            i = rng.choice(live); live.remove(i)
+            ops.append("k%d" % i)
+        else:
+            ops.append("j%d" % rng.choice([64, 100, 1000, 4096, 20000, 40000, 65536, 100000, 200000, 300000]))
+            live.append(nspans); nspans += 1       # the index exists even when the allocation fails (release is then refused)
+    return ["S", "jitd" if dual else "jit", "MASK"] + ops
+
+
 def with_mask(script, mask):
     return " ".join(mask if t == "MASK" else t for t in script)
 
@@ -438,6 +467,29 @@ def judge_script(cmd, ans):
             by = [int(x) for x in dumps[3].split(",")] if dumps[3] != "-" else []
             if sorted(by) != list(range(len(orders))) or any((orders[by[i]], by[i]) > (orders[by[i + 1]], by[i + 1]) for i in range(len(by) - 1)):
                 bad.append(("holder/sections-by-order", "sections_by_order %s is not the ids sorted by (order, id) for orders %s" % (by, orders)))
+    elif kind == "str":
+        ops = t[3:]
+        cur, pcap = b"", 30
+        for op, tok in zip(ops, toks):
+            if tok.endswith("!noterm"):
+                bad.append(("str/not-terminated", "after %s the string is not NUL-terminated" % op[:20])); tok = tok[:-7]
+            r, size, cap, large = map(int, tok.split("/"))
+            c, a_ = op[0], op[1:]
+            if r == 0:
+                if c == "a": cur += bytes.fromhex(a_)
+                elif c == "s": cur = bytes.fromhex(a_)
+                elif c == "c": cur += b"z" * int(a_)
+                elif c == "C": cur = b"z" * int(a_)
+                elif c in "xr": cur = b""
+                elif c == "t": cur = cur[:int(a_)] if int(a_) < len(cur) else cur
+            elif cap != pcap:
+                bad.append(("str/failed-op-changed-capacity", "%s failed but the capacity went %d -> %d" % (op[:20], pcap, cap)))
+            if size != len(cur) or cap < size:
+                bad.append(("str/size", "after %s (result %d): size %d capacity %d, expected size %d" % (op[:20], r, size, cap, len(cur)))); break
+            pcap = cap
+        final = b"" if dumps[0] == "-" else bytes.fromhex(dumps[0])
+        if final != cur and not bad:
+            bad.append(("str/content", "final content differs from applying exactly the operations that reported kOk"))
     elif kind == "ra":
         ops = t[3:]
         home = [False] * 8
@@ -459,6 +511,20 @@ def judge_script(cmd, ans):
         owners = [] if dumps[0] == "-" else dumps[0].split()
         if len(set(owners)) != len(owners) or "-1" in owners:
             bad.append(("ra/slot-owners", "slot owners %s are not distinct work registers" % owners))
+    elif kind in ("jit", "jitd"):
+        # balance rules on the real allocator: a failed alloc changes neither mappings, block records nor the block count; the
+        # number of mappings is (1 or 2) x blocks and the number of block records equals the number of blocks
+        per = 2 if kind == "jitd" else 1
+        pm, ph, pb = 0, 0, 0
+        for op, tok in zip(t[3:], toks):
+            r, lm, lh, nb = map(int, tok.split("/"))
+            if op[0] == "j" and r == 1 and (lm, lh, nb) != (pm, ph, pb):
+                bad.append(("jit/failed-alloc-changed-state", "%s failed but mappings/block records/blocks went %s -> %s" % (op, (pm, ph, pb), (lm, lh, nb))))
+            if lm != per * nb or lh != nb:
+                bad.append(("jit/balance", "after %s: %d mappings, %d block records for %d blocks" % (op, lm, lh, nb))); break
+            pm, ph, pb = lm, lh, nb
+        if dumps and dumps[0] != "end 0/0/0":
+            bad.append(("jit/leak-at-end", "after destroying the allocator: mappings/heap blocks/fds = %s" % dumps[0]))
     elif kind in ("vm", "vmd"):
         ops = t[3:]
         maps, heap = 0, 0
